@@ -277,6 +277,14 @@ func TestC15_Native(t *testing.T) {
 		caseC15Native)
 }
 
+// checkUnmodified: the front ends only read their input - the caller's bytes are the same
+// after the call (they are aliased by tokens and File.Bytes, and the caller may parse them again).
+func checkUnmodified(c *hx.Case, what string, src []byte, orig string) {
+	if string(src) != orig {
+		c.Failf("input-modified", "%s modified the caller's input bytes: %q became %q", what, orig, string(src))
+	}
+}
+
 func caseC15Native(c *hx.Case) {
 	t := c.T
 	text, kind := drawHostileInput(t)
@@ -297,13 +305,15 @@ func caseC15Native(c *hx.Case) {
 	// --- ParseConfig
 	var f *hcl.File
 	var diags hcl.Diagnostics
+	orig := string(src)
 	c.Guard("ParseConfig", func() { f, diags = hclsyntax.ParseConfig(src, "t.hcl", hcl.InitialPos) })
+	checkUnmodified(c, "ParseConfig", src, orig)
 	if f == nil || f.Body == nil {
 		c.Failf("nil-result", "ParseConfig returned a nil file or body")
 	}
 	files["t.hcl"] = f
 	checkDiags(c, "ParseConfig", diags, len(src), hcl.InitialPos)
-	f2, diags2 := hclsyntax.ParseConfig(append([]byte{}, src...), "t.hcl", hcl.InitialPos)
+	f2, diags2 := hclsyntax.ParseConfig([]byte(orig), "t.hcl", hcl.InitialPos)
 	if diagsDump(diags) != diagsDump(diags2) || dumpSyntax(f.Body) != dumpSyntax(f2.Body) {
 		c.Failf("nondeterministic", "ParseConfig returned different results for the same input")
 	}
@@ -420,6 +430,7 @@ func caseC15Native(c *hx.Case) {
 		}
 	}
 	mutantLike := kind == "mutant" || kind == "concat"
+	checkUnmodified(c, "parsing, schema application or evaluation", src, orig)
 	c.Done((rejected && mutantLike) || evaluated, text)
 }
 
@@ -446,7 +457,9 @@ func caseC15Writer(c *hx.Case) {
 	}
 	var f *hclwrite.File
 	var diags hcl.Diagnostics
+	worig := string(src)
 	c.Guard("hclwrite.ParseConfig", func() { f, diags = hclwrite.ParseConfig(src, "t.hcl", hcl.InitialPos) })
+	checkUnmodified(c, "hclwrite.ParseConfig", src, worig)
 	checkDiags(c, "hclwrite.ParseConfig", diags, len(src), hcl.InitialPos)
 	if f == nil && !diags.HasErrors() {
 		c.Failf("nil-file-without-error", "hclwrite.ParseConfig returned nil without an error diagnostic")
@@ -473,7 +486,8 @@ func caseC15Writer(c *hx.Case) {
 	}
 	var fm1, fm2 []byte
 	c.Guard("Format", func() { fm1 = hclwrite.Format(src) })
-	c.Guard("Format", func() { fm2 = hclwrite.Format(append([]byte{}, src...)) })
+	checkUnmodified(c, "hclwrite.Format", src, worig)
+	c.Guard("Format", func() { fm2 = hclwrite.Format([]byte(worig)) })
 	if !bytes.Equal(fm1, fm2) {
 		c.Failf("nondeterministic", "Format differs between two runs")
 	}
@@ -528,7 +542,9 @@ func caseC15JSON(c *hx.Case) {
 	verdict, _ := ref.RecogniseJSON(src)
 	var f *hcl.File
 	var diags hcl.Diagnostics
+	jorig := string(src)
 	c.Guard("json.Parse", func() { f, diags = hcljson.Parse(src, "t.json") })
+	checkUnmodified(c, "json.Parse", src, jorig)
 	if f == nil || f.Body == nil {
 		c.Failf("nil-result", "json.Parse returned a nil file or body")
 	}
